@@ -521,6 +521,63 @@ func programs(r *vf.Run) []program {
 				}
 			}
 		}
+		// one payload in two places of one operation: responses of an operation form one Go interface
+		// and one type switch, so two places that resolve to the same Go type must be told apart
+		// (per-status aliases); whether they are depends on how the payload is spelled
+		payloadComps := M{
+			"Obj":     M{"type": "object", "properties": M{"a": M{"type": "string"}}},
+			"NObj":    M{"type": "object", "nullable": true, "properties": M{"a": M{"type": "string"}}},
+			"NStr":    M{"type": "string", "nullable": true},
+			"Str":     M{"type": "string"},
+			"En":      M{"type": "string", "enum": []any{"a", "b"}},
+			"Arr":     M{"type": "array", "items": M{"type": "string"}},
+			"NArr":    M{"type": "array", "nullable": true, "items": M{"type": "integer"}},
+			"Map":     M{"type": "object", "additionalProperties": M{"type": "integer"}},
+			"Sum":     M{"oneOf": []any{M{"type": "string"}, M{"type": "integer"}}},
+			"NSum":    M{"nullable": true, "oneOf": []any{M{"type": "string"}, M{"type": "integer"}}},
+			"AliasTo": M{"$ref": "#/components/schemas/Obj"},
+		}
+		ref := func(n string) M { return M{"$ref": "#/components/schemas/" + n} }
+		payloads := []struct {
+			name string
+			sch  M
+		}{
+			{"ref-object", ref("Obj")}, {"ref-nullable-object", ref("NObj")}, {"ref-nullable-string", ref("NStr")}, {"ref-string", ref("Str")}, {"ref-enum", ref("En")},
+			{"ref-array", ref("Arr")}, {"ref-nullable-array", ref("NArr")}, {"ref-map", ref("Map")}, {"ref-sum", ref("Sum")}, {"ref-nullable-sum", ref("NSum")}, {"ref-to-ref", ref("AliasTo")},
+			{"nullable-allof-ref", M{"nullable": true, "allOf": []any{ref("Obj")}}},
+			{"inline-string", M{"type": "string"}}, {"inline-nullable-string", M{"type": "string", "nullable": true}}, {"inline-integer", M{"type": "integer"}}, {"inline-nullable-integer", M{"type": "integer", "nullable": true}},
+			{"inline-object", M{"type": "object", "properties": M{"a": M{"type": "string"}}}}, {"inline-array-of-ref", M{"type": "array", "items": ref("Obj")}}, {"inline-array-of-string", M{"type": "array", "items": M{"type": "string"}}},
+			{"inline-nullable-array", M{"type": "array", "nullable": true, "items": M{"type": "string"}}}, {"inline-map", M{"type": "object", "additionalProperties": M{"type": "string"}}}, {"any", M{}},
+			{"binary", M{"type": "string", "format": "binary"}},
+		}
+		for _, pl := range payloads {
+			js := func() M { return M{"application/json": M{"schema": pl.sch}} }
+			resp := func() M { return M{"description": "r", "content": js()} }
+			placements := []struct {
+				name string
+				op   M
+			}{
+				{"two-codes", M{"operationId": "op", "responses": M{"200": resp(), "201": resp()}}},
+				{"three-codes", M{"operationId": "op", "responses": M{"200": resp(), "202": resp(), "404": resp()}}},
+				{"code-and-default", M{"operationId": "op", "responses": M{"200": resp(), "default": resp()}}},
+				{"code-and-no-content", M{"operationId": "op", "responses": M{"200": resp(), "204": M{"description": "n"}}}},
+				{"two-media-types-of-a-code", M{"operationId": "op", "responses": M{"200": M{"description": "r", "content": M{"application/json": M{"schema": pl.sch}, "application/problem+json": M{"schema": pl.sch}}}}}},
+				{"json-and-text-of-a-code", M{"operationId": "op", "responses": M{"200": M{"description": "r", "content": M{"application/json": M{"schema": pl.sch}, "text/plain": M{"schema": M{"type": "string"}}}}, "201": resp()}}},
+				{"two-request-media-types", M{"operationId": "op", "requestBody": M{"required": true, "content": M{"application/json": M{"schema": pl.sch}, "application/merge-patch+json": M{"schema": pl.sch}}}, "responses": ok204()}},
+				{"request-and-two-codes", M{"operationId": "op", "requestBody": M{"content": js()}, "responses": M{"200": resp(), "201": resp()}}},
+				{"with-headers-on-one", M{"operationId": "op", "responses": M{"200": M{"description": "r", "headers": M{"X-A": M{"schema": M{"type": "string"}}}, "content": js()}, "201": resp()}}},
+			}
+			for _, plc := range placements {
+				for _, conv := range []string{"", "off"} {
+					spec := M{"openapi": "3.0.3", "info": M{"title": "t", "version": "1"}, "paths": M{"/a": M{"post": plc.op}}, "components": M{"schemas": payloadComps}}
+					data, _ := json.Marshal(spec)
+					id := fmt.Sprintf("x_same_%s_%s_%s", strings.ReplaceAll(pl.name, "-", ""), strings.ReplaceAll(plc.name, "-", ""), conv)
+					ps = append(ps, program{ID: id, Group: "cross", Spec: data, Opts: featureOpts([]string{"paths/server", "paths/client", "ogen/unimplemented"}, conv),
+						Attrs: map[string]string{"cross": "same-payload-twice", "payload": pl.name, "placement": plc.name, "convenient_errors": conv},
+						Desc:  M{"payload": pl.name, "placement": plc.name, "convenient_errors": conv}})
+				}
+			}
+		}
 	}
 	return ps
 }
